@@ -417,10 +417,8 @@ func H_C01_strings() {
 				vAssume(vAnd(w1 <= ' ', w2 <= ' '))
 				text = append(text, w1, w2)
 			case 2:
-				// a comment with any two-character body that does not close it early
-				r1, r2 := vRune("cm"), vRune("cm")
-				vAssume(!vAnd(r1 == '*', r2 == '/'))
-				text = append(text, ' ', '/', '*', r1, r2, '*', '/', ' ')
+				// a comment with any one-character body (a star or a slash included)
+				text = append(text, ' ', '/', '*', vRune("cm"), '*', '/', ' ')
 			case 3:
 				// no filler at all, where the neighbours cannot fuse
 				if i > 0 && isWordLike(toks[i-1]) && isWordLike(t) {
